@@ -656,6 +656,33 @@ def r14_6(prog, tab, summ=None):
                             continue
                         via = t[1].split("@")[0]
                         t = src_tree
+                    else:
+                        # the other direction: the local was stored into a persistent lvalue (`*sptr = st`) and nothing
+                        # on the way from that store to the free gave the lvalue another value: freeing the local frees it
+                        for sb, si, d in f.events():
+                            if d["k"] != "assign" or d.get("op") != "=" or "rhs" not in d or d.get("lhs_tree") is None:
+                                continue
+                            rt = strip_casts(d["rhs"]["tree"])
+                            if not (is_var(rt) and rt[1] == t[1]):
+                                continue
+                            lt = strip_casts(d["lhs_tree"])
+                            if not isinstance(lt, list) or lt[0] not in ("member", "un") or (lt[0] == "un" and lt[1] != "*"):
+                                continue
+                            if lt[0] == "member" and not any(n[0] == "member" and n[3] for n in walk(lt)) and not any(n[0] == "un" and n[1] == "*" for n in walk(lt)):
+                                continue
+                            ltxt = tree_text(lt)
+                            again = lambda y, d=d, ltxt=ltxt: (y["k"] == "assign" and y.get("op") == "=" and y.get("lhs_tree") is not None
+                                                               and tree_text(strip_casts(y["lhs_tree"])) == ltxt and y is not d)
+                            if sb.id == b.id and si < i:
+                                reaches_free = True
+                                rewritten = any(again(y) for y in b.ev[si + 1:i])
+                            else:
+                                reaches_free = b.id in f.reachable_from(sb.succs())
+                                rewritten = any(again(y) for y in sb.ev[si + 1:]) or all(must_pass(f, s_, b.id, i, again) for s_ in sb.succs())
+                            if reaches_free and not rewritten:
+                                via = t[1].split("@")[0]
+                                t = lt
+                                break
                 # persistent lvalue: member through a pointer, or *ptr, or array element through pointer
                 if not isinstance(t, list) or t[0] not in ("member", "un", "sub"):
                     continue
